@@ -5,6 +5,7 @@ import (
 	"io"
 	"net"
 	"sync"
+	"time"
 
 	ws "github.com/gorilla/websocket"
 	"github.com/zishang520/engine.io-go-parser/packet"
@@ -82,7 +83,7 @@ func (w *websocket) message() {
 		switch mt {
 		case ws.BinaryMessage:
 			read := types.NewBytesBuffer(nil)
-			if _, err := read.ReadFrom(message); err != nil {
+			if err := w.readMessage(read, message); err != nil {
 				if errors.Is(err, net.ErrClosed) {
 					w.socket.Emit("close")
 				} else {
@@ -93,7 +94,7 @@ func (w *websocket) message() {
 			}
 		case ws.TextMessage:
 			read := types.NewStringBuffer(nil)
-			if _, err := read.ReadFrom(message); err != nil {
+			if err := w.readMessage(read, message); err != nil {
 				if errors.Is(err, net.ErrClosed) {
 					w.socket.Emit("close")
 				} else {
@@ -115,6 +116,22 @@ func (w *websocket) message() {
 			c.Close()
 		}
 	}
+}
+
+// Reads one message. The connection's read limit bounds the bytes of a frame
+// on the wire; what permessage-deflate inflates them to is bounded here.
+func (w *websocket) readMessage(read types.BufferInterface, message io.Reader) error {
+	limit := w.MaxHttpBufferSize()
+	if limit <= 0 {
+		_, err := read.ReadFrom(message)
+		return err
+	}
+	n, err := read.ReadFrom(io.LimitReader(message, limit+1))
+	if err == nil && n > limit {
+		w.socket.WriteControl(ws.CloseMessage, ws.FormatCloseMessage(ws.CloseMessageTooBig, ""), time.Now().Add(time.Second))
+		return ws.ErrReadLimit
+	}
+	return err
 }
 
 func (w *websocket) onMessage(data types.BufferInterface) {
